@@ -20,7 +20,7 @@ ASSUMPTIONS = [
     "purge commands travel through the executor, transfer/fetch commands go straight to the data server: they may overtake each other",
 ]
 TIERS = {
-    "quick": {"cases": 1600, "shards": 16},
+    "quick": {"cases": 3200, "shards": 16},
     "thorough": {"cases": 160000, "shards": 16},
 }
 MANIFEST = {
